@@ -346,7 +346,7 @@ func TestC11(t *testing.T) {
 		u := newCDP(t, cdpOpts{variant: variant})
 		u.c.App.NewliqKeeper.SetParams(u.c.Ctx(), liqV2types.Params{LiquidationBatchSize: 200})
 		rnd := rng("C11", run)
-		cfg := cdpCfg{priceMoves: true, bids: true, lockers: false, unsolicited: false, liquidateMsg: true, unsafeBias: true, limitBids: true, maxGap: 2 * 3600 * 1e9}
+		cfg := cdpCfg{priceMoves: true, bids: true, lockers: false, unsolicited: false, liquidateMsg: true, unsafeBias: true, limitBids: true, reserve: variant%2 == 1, maxGap: 2 * 3600 * 1e9}
 		r := newCdpRunner(u, rnd, rec, cfg, newC11Mon(u, rec))
 		r.run(cdpSteps())
 		if run == 0 {
